@@ -144,6 +144,18 @@ Theorem C10_preencrypted :
   (forall drm, encryptsTrack drm false = false) /\ liveMPDdrm false true = Ok tt /\ liveMPDdrm true false = Ok tt.
 Proof. exact preencrypted_refused. Qed.
 
+(** The iv: whenever a segment is served encrypted, the iv it was encrypted with has 16 bytes and -
+    for cbcs, where the client takes it from the init segment - is the constant IV the served init
+    segment signals; a content key without iv (CPIX explicitIV is optional) is refused, never
+    served undecryptable.  (cenc carries the per-sample ivs in senc: cipher oracle.) *)
+Theorem C10_served_iv_is_signalled : forall p iv,
+  fragmentIV p = Ok iv -> lenZ iv = 16 /\ (p_scheme p = 1 -> signalledIV p = iv).
+Proof. exact served_iv_is_signalled. Qed.
+Print Assumptions C10_served_iv_is_signalled.
+
+Theorem C10_missing_iv_refused : forall p, p_iv p = [] -> exists e, fragmentIV p = Err e.
+Proof. exact missing_iv_refused. Qed.
+
 (** Whether protection data exists for a track does not depend on how the asset was loaded (scanned,
     or restored from stored representation metadata after a restart): it is prepared for every
     encryptable codec.  Tied to the code by the correspondence on three differently started servers. *)
